@@ -41,6 +41,17 @@ CLAIMED["C04"] = dict(
          "(counted in the evidence).",
     design_ref="DESIGN.md §4 C04")
 
+CLAIMED["C03"] = dict(
+    technique="Hypothesis-generated (model, T, dt, dts, cutoff, solver) configurations; differential against my own "
+              "Euler/Heun loop over the same compiled function, and convergence against an independently integrated "
+              "reference solution",
+    text="Fixed-step arm: run() must reproduce row by row the Euler/Heun iterates of the compiled vector field (row "
+         "count, first row, time index, cutoff). Convergence arm: scipy RK45/RK23/DOP853/LSODA and euler/heun against "
+         "the reference interpreter integrated by DOP853 at rtol 1e-11, time-dependent forcing included.",
+    note="NumPy backend (the other backends' solvers are exercised in C02); <=120 fixed steps, T<=2; tolerance factor "
+         "2e-5 relative for adaptive solvers; no exact Heun claim for explicit-t terms.",
+    design_ref="DESIGN.md §4 C03")
+
 NOT_YET = {}
 
 
